@@ -98,7 +98,7 @@ func (sc *swarmScenario) String() string {
 
 func TestSwarmPair(t *testing.T) {
 	name := t.Name()
-	hx.Check(t, 1500, 60000, 0, func(rt *rapid.T) {
+	hx.Check(t, 1500, 500000, 0, func(rt *rapid.T) {
 		sc := drawSwarmScenario(rt)
 		var fired, established bool
 		hx.Bubble(t, rt, func() {
